@@ -10,6 +10,12 @@ package eval
 // asset state is read back through the evaluator's roundCowState (cow_creatables.go /
 // getCreator), so that what a FAILED transaction leaves behind in the block under construction
 // is observed as well; the finished block is then re-evaluated with eval.Eval.
+// About half of the steps are GROUPS of 2..4 transactions on one asset that mix holding changes
+// (transfers to / from the creator, clawback, freeze, opt-in, close-out) with reconfigurations and
+// destroy attempts in random order: all members run in one child cow on top of the block's cow
+// (the layering of cow_creatables.go: putAssetParams / putAssetHolding copy the sibling delta
+// from the cache), and the state is observed after the group commits or is discarded.  At the
+// end a second evaluator replays all committed groups and its state is observed as well.
 
 import (
 	"context"
@@ -19,6 +25,7 @@ import (
 	"strings"
 	"testing"
 
+	"github.com/algorand/go-algorand/crypto"
 	"github.com/algorand/go-algorand/data/basics"
 	"github.com/algorand/go-algorand/data/bookkeeping"
 	"github.com/algorand/go-algorand/data/transactions"
@@ -83,13 +90,14 @@ type vc22World struct {
 }
 
 type vc22Env struct {
-	t      *testing.T
-	l      *evalTestLedger
-	ev     *BlockEvaluator
-	addrs  []basics.Address
-	num    map[basics.Address]uint64
-	assets []uint64 // every asset id ever created
-	uniq   int
+	t         *testing.T
+	l         *evalTestLedger
+	ev        *BlockEvaluator
+	addrs     []basics.Address
+	num       map[basics.Address]uint64
+	assets    []uint64 // every asset id ever created
+	uniq      int
+	committed [][]transactions.SignedTxn // the committed groups, for the second evaluator
 }
 
 func (e *vc22Env) addr(i uint64) basics.Address {
@@ -136,7 +144,9 @@ func (e *vc22Env) observe() (vc22World, []interface{}) {
 			al = append(al, vL(x, rec.TotalAssets, rec.TotalAssetParams))
 		}
 	}
-	sort.Slice(prows, func(i, j int) bool { return prows[i].c < prows[j].c || (prows[i].c == prows[j].c && prows[i].a < prows[j].a) })
+	sort.Slice(prows, func(i, j int) bool {
+		return prows[i].c < prows[j].c || (prows[i].c == prows[j].c && prows[i].a < prows[j].a)
+	})
 	for _, r := range prows {
 		p := r.p
 		pl = append(pl, vL(r.c, r.a, p.Total, p.DefaultFrozen, e.num[p.Manager], e.num[p.Reserve], e.num[p.Freeze], e.num[p.Clawback], uint64(p.Decimals)))
@@ -176,7 +186,7 @@ func (o vc22Op) term() []interface{} {
 	return vL(vSym("tick"))
 }
 
-func (e *vc22Env) submit(o vc22Op) (int, uint64) {
+func (e *vc22Env) build(o vc22Op) transactions.Transaction {
 	e.uniq++
 	tx := transactions.Transaction{Header: transactions.Header{
 		Sender: e.addr(o.s), Fee: basics.MicroAlgos{Raw: 5000}, FirstValid: e.ev.Round(), LastValid: e.ev.Round() + 5,
@@ -198,6 +208,11 @@ func (e *vc22Env) submit(o vc22Op) (int, uint64) {
 		tx.Type = protocol.PaymentTx
 		tx.PaymentTxnFields = transactions.PaymentTxnFields{Receiver: e.addr(o.s)}
 	}
+	return tx
+}
+
+func (e *vc22Env) submit(o vc22Op) (int, uint64) {
+	tx := e.build(o)
 	stxn := transactions.SignedTxn{Txn: tx}
 	before := len(e.ev.block.Payset)
 	err := e.ev.TestTransactionGroup([]transactions.SignedTxn{stxn})
@@ -215,6 +230,7 @@ func (e *vc22Env) submit(o vc22Op) (int, uint64) {
 		}
 		return c, 0
 	}
+	e.committed = append(e.committed, []transactions.SignedTxn{stxn})
 	ad := e.ev.block.Payset[before].ApplyData
 	switch o.kind {
 	case "cfg":
@@ -227,6 +243,188 @@ func (e *vc22Env) submit(o vc22Op) (int, uint64) {
 	}
 	return 0, 0
 }
+
+// a whole group through TransactionGroup: one child cow for all members, committed only if
+// every member succeeds.  Returns (error class, index of the failing member, ApplyData values).
+func (e *vc22Env) submitGroup(ops []vc22Op) (int, int, []interface{}) {
+	stxns := make([]transactions.SignedTxn, len(ops))
+	var grp transactions.TxGroup
+	for i, o := range ops {
+		stxns[i] = transactions.SignedTxn{Txn: e.build(o)}
+		grp.TxGroupHashes = append(grp.TxGroupHashes, crypto.Digest(stxns[i].Txn.ID()))
+	}
+	gid := crypto.HashObj(grp)
+	group := make([]transactions.SignedTxnWithAD, len(ops))
+	for i := range stxns {
+		stxns[i].Txn.Group = gid
+		group[i] = stxns[i].WithAD()
+	}
+	before := len(e.ev.block.Payset)
+	if err := e.ev.TestTransactionGroup(stxns); err != nil {
+		e.t.Fatalf("harness generated a malformed group: %v", err)
+	}
+	err := e.ev.TransactionGroup(group...)
+	if (err == nil) != (len(e.ev.block.Payset) == before+len(ops)) {
+		e.t.Fatalf("payset length does not reflect the group result")
+	}
+	if err != nil {
+		c := vc22Class(err)
+		if c == 99 {
+			e.t.Fatalf("unclassified group error: %v", err)
+		}
+		k := -1
+		for i := range stxns {
+			if strings.Contains(err.Error(), stxns[i].Txn.ID().String()) {
+				k = i
+			}
+		}
+		if k < 0 {
+			e.t.Fatalf("cannot tell which member failed: %v", err)
+		}
+		return c, k, vL()
+	}
+	e.committed = append(e.committed, stxns)
+	vs := vL()
+	for i, o := range ops {
+		ad := e.ev.block.Payset[before+i].ApplyData
+		switch o.kind {
+		case "cfg":
+			vs = append(vs, uint64(ad.ConfigAsset))
+		case "xfer":
+			vs = append(vs, ad.AssetClosingAmount)
+		default:
+			vs = append(vs, 0)
+		}
+	}
+	return 0, 0, vs
+}
+
+// 2..4 transactions on ONE existing asset, mixing holding changes (transfers to / from the
+// creator, clawback, freeze, opt-in, close-out) with reconfigurations and destroy attempts, in
+// random order; roles mostly taken from the parameters as they are BEFORE the group
+func vc22GenGroup(r *vRand, w vc22World, e *vc22Env, naccts int) []vc22Op {
+	var live []uint64
+	for a := range w.creators {
+		live = append(live, a)
+	}
+	if len(live) == 0 {
+		return nil
+	}
+	sort.Slice(live, func(i, j int) bool { return live[i] < live[j] })
+	a := live[r.Intn(len(live))]
+	for try := 0; try < 4 && w.par[a].Manager.IsZero(); try++ { // prefer assets that can still be reconfigured
+		a = live[r.Intn(len(live))]
+	}
+	p := w.par[a]
+	creator := w.creators[a]
+	// the roles as they will be after the members generated so far (if those commit)
+	curManager, curFreeze, curClawback := e.num[p.Manager], e.num[p.Freeze], e.num[p.Clawback]
+	cur := func(x uint64) uint64 {
+		if x != 0 && r.Intn(8) != 0 {
+			return x
+		}
+		return acct0(r, naccts)
+	}
+	acct := func() uint64 { return uint64(1 + r.Intn(naccts)) }
+	role := func() uint64 {
+		if r.Intn(4) == 0 {
+			return 0
+		}
+		return acct()
+	}
+	amtOf := map[uint64]uint64{}
+	var holders []uint64
+	for _, h := range w.hold {
+		if h.a == a {
+			amtOf[h.x] = h.amt
+			holders = append(holders, h.x)
+		}
+	}
+	holder := func() uint64 {
+		if len(holders) == 0 || r.Intn(8) == 0 {
+			return acct()
+		}
+		return holders[r.Intn(len(holders))]
+	}
+	part := func(x uint64) uint64 {
+		h := amtOf[x]
+		if h == 0 || r.Intn(8) == 0 {
+			return uint64(r.Intn(3))
+		}
+		if r.Intn(4) == 0 {
+			return h
+		}
+		return 1 + r.U64()%h
+	}
+	holdingOp := func() vc22Op {
+		switch r.Intn(7) {
+		case 0, 1: // creator -> holder
+			return vc22Op{kind: "xfer", s: creator, a: a, amt: part(creator), r: holder()}
+		case 2: // holder -> creator
+			s := holder()
+			return vc22Op{kind: "xfer", s: s, a: a, amt: part(s), r: creator}
+		case 3: // clawback (often from or to the creator)
+			src, dst := holder(), holder()
+			if r.Bool() {
+				src = creator
+			} else {
+				dst = creator
+			}
+			return vc22Op{kind: "xfer", s: cur(curClawback), a: a, amt: part(src), r: dst, asnd: src}
+		case 4:
+			return vc22Op{kind: "frz", s: cur(curFreeze), a: a, x: holder(), f: r.Bool()}
+		case 5:
+			s := acct()
+			return vc22Op{kind: "xfer", s: s, a: a, r: s}
+		default: // close out (to the creator or another holder)
+			s := holder()
+			ct := creator
+			if r.Intn(3) == 0 {
+				ct = holder()
+			}
+			return vc22Op{kind: "xfer", s: s, a: a, r: holder(), ct: ct}
+		}
+	}
+	cfgOp := func(last bool) vc22Op {
+		if last && r.Intn(3) == 0 || r.Intn(12) == 0 { // destroy attempt (mostly as the last member)
+			return vc22Op{kind: "cfg", s: cur(curManager), a: a}
+		}
+		o := vc22Op{kind: "cfg", s: cur(curManager), a: a, manager: role(), reserve: role(), freeze: role(), clawback: role()}
+		if r.Intn(3) != 0 && curManager != 0 {
+			o.manager = curManager
+		}
+		if o.manager == 0 && o.reserve == 0 && o.freeze == 0 && o.clawback == 0 {
+			o.manager = acct()
+		}
+		if o.s == curManager && curManager != 0 { // will commit: the roles change for the later members
+			curManager = o.manager
+			if curFreeze != 0 {
+				curFreeze = o.freeze
+			}
+			if curClawback != 0 {
+				curClawback = o.clawback
+			}
+		}
+		return o
+	}
+	k := 2 + r.Intn(3)
+	ops := make([]vc22Op, k)
+	// at least one of each kind, at random positions
+	hi, ci := r.Intn(k), r.Intn(k-1)
+	if ci >= hi {
+		ci++
+	}
+	for i := range ops {
+		if i == hi || i != ci && r.Bool() {
+			ops[i] = holdingOp()
+		} else {
+			ops[i] = cfgOp(i == k-1)
+		}
+	}
+	return ops
+}
+
+func acct0(r *vRand, naccts int) uint64 { return uint64(1 + r.Intn(naccts)) }
 
 func vc22Gen(r *vRand, w vc22World, assets []uint64, naccts int) vc22Op {
 	acct := func() uint64 { return uint64(1 + r.Intn(naccts)) }
@@ -340,6 +538,8 @@ func TestVerifC22Eval(t *testing.T) {
 	rnd := vNewRand(2222)
 	codes := map[string]interface{}{}
 	cnt := map[int]int{}
+	ngroups := map[string]int{}
+	groupPct := vEnvInt("VERIF_C22_EVAL_GROUPS", 45)
 	for i := 0; i < n; i++ {
 		genesis, addrs, _ := ledgertesting.GenesisWithProto(6, protocol.ConsensusFuture)
 		l := newTestLedger(t, bookkeeping.GenesisBalances{Balances: genesis.Accounts, FeeSink: testSinkAddr, RewardsPool: testPoolAddr})
@@ -354,6 +554,22 @@ func TestVerifC22Eval(t *testing.T) {
 		w, _ := e.observe()
 		length := 5 + rnd.Intn(nops)
 		for j := 0; j < length; j++ {
+			if rnd.Intn(100) < groupPct {
+				if g := vc22GenGroup(rnd, w, e, naccts); g != nil {
+					code, k, vs := e.submitGroup(g)
+					cnt[code]++
+					ngroups[fmt.Sprintf("groups_%d_ok_%v", len(g), code == 0)]++
+					var d []interface{}
+					w, d = e.observe()
+					gt := vL(vSym("grp"))
+					for _, o := range g {
+						gt = append(gt, o.term())
+					}
+					ops = append(ops, gt)
+					obs = append(obs, vL(code, k, vs, d[0], d[1], d[2], d[3]))
+					continue
+				}
+			}
 			o := vc22Gen(rnd, w, e.assets, naccts)
 			// roles are chosen from the observed parameters
 			if p, ok := w.par[o.a]; ok && rnd.Intn(8) != 0 {
@@ -373,6 +589,22 @@ func TestVerifC22Eval(t *testing.T) {
 			ops = append(ops, o.term())
 			obs = append(obs, vL(code, v, d[0], d[1], d[2], d[3]))
 		}
+		// a SECOND evaluator on the same base replays the committed groups; its state is observed too
+		ev1 := e.ev
+		e.ev = l.nextBlock(t)
+		for _, g := range e.committed {
+			ads := make([]transactions.SignedTxnWithAD, len(g))
+			for x := range g {
+				ads[x] = g[x].WithAD()
+			}
+			if err := e.ev.TransactionGroup(ads...); err != nil {
+				t.Fatalf("second evaluator refuses a committed group: %v", err)
+			}
+		}
+		_, d2 := e.observe()
+		ops = append(ops, vL(vSym("fin")))
+		obs = append(obs, vL(d2[0], d2[1], d2[2], d2[3]))
+		e.ev = ev1
 		vb := l.endBlock(t, e.ev)
 		// the generated block must re-evaluate (signatures are not part of this harness)
 		delete(l.blocks, vb.Block().Round())
@@ -385,5 +617,9 @@ func TestVerifC22Eval(t *testing.T) {
 	for k, v := range cnt {
 		codes[fmt.Sprintf("class_%02d", k)] = v
 	}
-	vStats(map[string]interface{}{"histories": n, "result_classes(00=ok)": codes})
+	gs := map[string]interface{}{}
+	for k, v := range ngroups {
+		gs[k] = v
+	}
+	vStats(map[string]interface{}{"histories": n, "result_classes(00=ok)": codes, "groups": gs})
 }
